@@ -97,7 +97,7 @@ LocalTake(sc, it) == Min2(sc.bs - Len(it.buf), sc.n - it.sp)
 LocalFilled(sc, it) ==
   it.buf \o [j \in 1..LocalTake(sc, it) |-> it.sp + j - 1]
 Call(sc, it) ==
-  CASE sc.kind = "reshuffle" /\ it.st = "new" -> [rc |-> "shuffle", m |-> sc.n]
+  CASE sc.kind \in {"reshuffle", "frozen"} /\ it.st = "new" -> [rc |-> "shuffle", m |-> sc.n]
     [] sc.kind = "local" /\ it.st \in {"new", "run"} ->
          LET b == LocalFilled(sc, it) IN
          IF Len(b) >= sc.bs THEN [rc |-> "choice", m |-> sc.bs]
@@ -126,6 +126,16 @@ StepF(sc, St, i, sg, c) ==
                        its |-> [St.its EXCEPT ![i] = Read([it EXCEPT !.own = a1], a1, "run")]]
          ELSE LET A == IF "S7" \in Unfixed THEN St.arr ELSE it.own   \* the LIVE array
               IN [arr |-> St.arr, its |-> [St.its EXCEPT ![i] = Read(it, A, "run")]]
+    \* "frozen": a reshuffled dataset behind a stage that freezes its input at
+    \* the start of EVERY iteration (catch(), pool prefetch, lazy apply):
+    \* copy(freeze=True) draws the next permutation in place in the shared
+    \* array and slices with a PRIVATE copy of it - overlapping iterations
+    \* must not see each other's draws (no S7 here)
+    [] sc.kind = "frozen" ->
+         IF it.st = "new"
+         THEN LET a1 == ApplyPerm(St.arr, sg)
+              IN [arr |-> a1, its |-> [St.its EXCEPT ![i] = Read([it EXCEPT !.own = a1], a1, "run")]]
+         ELSE [arr |-> St.arr, its |-> [St.its EXCEPT ![i] = Read(it, it.own, "run")]]
     [] sc.kind = "local" ->
          IF it.st \in {"new", "run"}
          THEN LET b  == LocalFilled(sc, it)
@@ -227,7 +237,7 @@ V_C12(sc, hist, obs) ==
 
 CONSTANTS MaxN,        \* largest dataset
           NIter,       \* iterators over the one object (reshuffle, local, once)
-          Kinds,       \* subset of {"reshuffle", "local", "once", "tile", "choice"}
+          Kinds,       \* subset of {"reshuffle", "frozen", "local", "once", "tile", "choice"}
           MaxReps      \* tile repetitions 1..MaxReps
 
 VARIABLES sc, arr, its, hist
@@ -241,6 +251,8 @@ Scenarios ==
   UNION {
     IF "reshuffle" \in Kinds
     THEN {Scn("reshuffle", n, 0, NIter, 0, 0, <<>>, <<>>, FALSE) : n \in 0..MaxN} ELSE {},
+    IF "frozen" \in Kinds
+    THEN {Scn("frozen", n, 0, NIter, 0, 0, <<>>, <<>>, FALSE) : n \in 0..MaxN} ELSE {},
     IF "local" \in Kinds
     THEN UNION {{Scn("local", n, b, NIter, 0, 0, <<>>, <<>>, FALSE) : b \in 1..(n + 1)}
                 : n \in 0..MaxN} ELSE {},
